@@ -27,6 +27,10 @@ HASHER = {"cls": "torrentfile.hasher.Hasher",
 WF = ("self.piece_length > 0 and 0 <= self.index and file_wf(self.current, self.paths[self.index]) "
       "if self.index < len(self.paths) else self.piece_length > 0 and 0 <= self.index")
 REMAINING = "(file_tail(self.current) + rest(self.paths, self.index + 1))"
+# declared stream of a piece-aligned torrent: the unread part of the current file, zero bytes up to the next piece boundary,
+# then every later file with its padding
+REM_A = ("(file_tail(self.current) + zeros(gap(len(file_tail(self.current)), self.piece_length)) + "
+         "rest_aligned(self.paths, self.index + 1, self.piece_length))")
 
 
 def register_hasher(reg):
@@ -68,7 +72,8 @@ def register_hasher(reg):
           ("C01", "piece_is_full_unless_the_stream_ended",
            f"implies(not self.align, len(arr) <= self.piece_length and (len(arr) == self.piece_length or len({REMAINING}) == 0))"),
           ("C15", "aligned_piece_is_zero_padded",
-           "implies(self.align, result == sha1(old(arr) + zeros(self.piece_length - len(old(arr)))) and self.index == old(self.index))"),
+           "implies(self.align, result == sha1(old(arr) + zeros(self.piece_length - len(old(arr)))) and self.index == old(self.index) "
+           "and file_same(self.current, old(self.current)))"),
           ("C01", "state_stays_wellformed",
            "self.paths == old(self.paths) and self.piece_length == old(self.piece_length) and self.align == old(self.align) and "
            "old(self.index) <= self.index and file_open(self.current) and "
@@ -101,6 +106,8 @@ def register_hasher_next(reg):
            f"implies(not self.align, 0 < len(hashed()) <= self.piece_length and (len(hashed()) == self.piece_length or len({REMAINING}) == 0))"),
           ("C15", "aligned_pieces_never_straddle_files",
            "implies(self.align, len(hashed()) == self.piece_length)"),
+          ("C15", "aligned_piece_is_the_head_of_the_declared_stream_with_zero_padding",
+           f"implies(self.align, hashed() + {REM_A} == old({REM_A}))"),
           ("C01", "state_stays_wellformed",
            "self.paths == old(self.paths) and self.piece_length == old(self.piece_length) and self.align == old(self.align) and "
            "old(self.index) <= self.index and file_open(self.current) and "
@@ -112,6 +119,7 @@ def register_hasher_next(reg):
       raises_props=["C01"],
       loops={0: {"invariant": [
           ("stream_unchanged_while_skipping_exhausted_files", f"{REMAINING} == old({REMAINING})"),
+          ("declared_stream_unchanged_while_skipping_exhausted_files", f"implies(self.align, {REM_A} == old({REM_A}))"),
           ("wf", "self.paths == old(self.paths) and self.piece_length == old(self.piece_length) and self.align == old(self.align) "
                  "and old(self.index) <= self.index and file_open(self.current) and "
                  "implies(self.index >= len(self.paths), file_at_eof(self.current))"),
